@@ -48,5 +48,52 @@ F10)
   echo "$W-again" > A/f; echo aaaa-loser > B/f; "$COPIA" bisync A B >/dev/null 2>&1
   grep -q "my edits" "A/$c" && grep -q "my edits" "B/$c" && exit 0
   echo "the edited conflict-copy $c was overwritten by the repeated loser:"; cat "A/$c"; exit 1;;
+F7)
+  # ssh stand-in: ignore the host, run the remote command locally
+  mkdir bin; printf '#!/bin/bash\nshift\nexec bash -c "$*"\n' > bin/ssh; chmod +x bin/ssh; export PATH="$T/bin:$PATH"
+  mkdir -p src dst; echo keep > src/a; cp -p src/a dst/a; touch -r src/a dst/a
+  printf 'stale' > "dst/a
+b"                                   # destination-only file whose name contains a newline
+  "$COPIA" sync -r --delete src "hh:$T/dst" > out 2>&1; rc=$?
+  tail -3 out; echo "exit=$rc; dst now: $(ls dst | tr '\n' '|')"
+  [ -f dst/a ] && [ ! -e "dst/a
+b" ] && exit 0
+  echo "the up-to-date file 'a' was deleted and/or the stale file 'a\\nb' survived"; exit 1;;
+F16)
+  # needs an unprivileged user: the copied 0444 file cannot be opened for write to set its mtime
+  chmod 755 "$T"; mkdir -p src dst; echo data > src/f; chmod 444 src/f; touch -d '2020-01-01 00:00:00' src/f; chown -R nobody "$T"
+  setpriv --reuid=nobody --regid=nogroup --clear-groups "$COPIA" sync -r src dst > out1 2>&1; rc1=$?
+  setpriv --reuid=nobody --regid=nogroup --clear-groups "$COPIA" sync -r src dst > out2 2>&1; rc2=$?
+  echo "first run exit=$rc1: $(grep -E 'Complete|FAILED|rror' out1 | head -2 | tr '\n' ' ')"; echo "second run: $(grep -E 'Plan:|Already' out2)"
+  [ $rc1 -ne 0 ] && exit 0          # the failure is reported
+  grep -q 'Plan: 0 to transfer\|Already up to date' out2 && exit 0
+  echo "exit 0 although the mtime could not be carried; the unchanged file is re-sent"; exit 1;;
+F17)
+  chmod 755 "$T"; mkdir -p src dst; echo keep > src/a; cp -p src/a dst/a; echo stale > dst/old; chown -R nobody "$T"; chmod 555 dst
+  setpriv --reuid=nobody --regid=nogroup --clear-groups "$COPIA" sync -r --delete src dst > out 2>&1; rc=$?
+  chmod 755 dst
+  echo "exit=$rc: $(grep -E 'Deleted|Complete|rror' out | tr '\n' ' ')"; echo "dst/old still exists: $([ -e dst/old ] && echo yes || echo no)"
+  [ -e dst/old ] && [ $rc -eq 0 ] && { echo "delete failed silently (reported as deleted, exit 0)"; exit 1; }
+  exit 0;;
+F17b)
+  export HOME="$T/home"; chmod 755 "$T"; mkdir -p "$HOME" A B; echo v > A/f; chown -R nobody "$T"
+  P="setpriv --reuid=nobody --regid=nogroup --clear-groups env HOME=$HOME"
+  $P "$COPIA" bisync A B >/dev/null 2>&1
+  rm A/f; chmod 555 B                 # delete on A; B's directory is read-only so the propagated delete fails
+  $P "$COPIA" bisync A B > out 2>&1; rc=$?; chmod 755 B
+  echo "exit=$rc: $(tail -1 out)"
+  $P "$COPIA" bisync A B > out2 2>&1
+  echo "next run: $(grep -E 'plan' out2)"; echo "A/f exists again: $([ -e A/f ] && echo yes || echo no)"
+  [ -e A/f ] && { echo "the failed delete was recorded as done; the file the user deleted came back"; exit 1; }
+  exit 0;;
+F8)
+  mkdir bin; printf '#!/bin/bash\nshift\nexec setsid bash -c "$*"\n' > bin/ssh; chmod +x bin/ssh; export PATH="$T/bin:$PATH"
+  mkdir -p src dst; head -c 300000000 /dev/zero > src/big; echo old-complete-content > dst/big
+  "$COPIA" sync -r src "hh:$T/dst" > out 2>&1 &
+  pid=$!; sleep 0.25; kill -9 $pid 2>/dev/null; wait $pid 2>/dev/null
+  sleep 2                                     # let the orphaned remote command finish
+  sz=$(stat -c %s dst/big); echo "dst/big size after the kill: $sz (source 300000000, old 21)"; ls dst | tr '\n' ' '; echo
+  [ "$sz" -eq 300000000 ] || [ "$sz" -eq 21 ] && exit 0
+  echo "a truncated file was published"; exit 1;;
 *) echo "unknown demo $WHICH"; exit 2;;
 esac
